@@ -12,7 +12,7 @@
      index_hierarchy.py:436-462   _from_type_blocks tree-form rejection -> tree_ok
    The loop directions / descending handling are NOT hard-wired: they come from `sort_params`, which
    Gen/Gen_c12.v instantiates from the source text on every run (SF/SortCode.v). *)
-Require Import SF.Prelude SF.Dtype SF.Value SF.SortCore.
+Require Import SF.Prelude SF.Dtype SF.Value SF.PyDyn SF.SortCore.
 
 (* ------------------------------------------------------------------ order on values *)
 (* NumPy's sort order for the key kinds of the property: numbers (bool < int/float compared by
@@ -328,7 +328,26 @@ Definition fsv_dom (n : nat) (c : cfs) : bool :=
   | _ => false
   end.
 
-Definition is_err {X} (r : res X) : bool := match r with Err _ => true | Ok _ => false end.
+Definition res_is_err {X} (r : res X) : bool := match r with Err _ => true | Ok _ => false end.
+
+(* NumPy sort kinds that are stable ('mergesort' is an alias of 'stable') *)
+Definition kind_is_stable (k : pv) : bool :=
+  match k with
+  | PStr s => String.eqb s "mergesort" || String.eqb s "stable"
+  | _ => false
+  end.
+
+(* a hierarchical result must be representable (tree form); flat indices always are *)
+Definition hier_ok (depth : nat) (labels : list val) (order : list nat) : bool :=
+  negb (2 <=? depth)%nat || tree_ok depth (take VNone order labels).
+
+Definition fsv_n (axis : Z) (o : oframe) : nat :=
+  if axis =? 1 then length (of_index o) else length (of_columns o).
+Definition fsv_cfs (axis : Z) (o : oframe) (sel : list nat) (single : bool) (keyres : option cfs) : cfs :=
+  match keyres with Some c => c | None => fsv_default_cfs axis o sel single end.
+Definition fsv_hier_ok (axis : Z) (f : sframe) (order : list nat) : bool :=
+  if axis =? 1 then hier_ok (sf_idepth f) (of_index (sf_obs f)) order
+  else hier_ok (sf_cdepth f) (of_columns (sf_obs f)) order.
 
 (* equality tests used by the generated cases *)
 Definition order_eqb (a : res (list nat)) (b : res (list Z)) : bool :=
